@@ -444,6 +444,8 @@ func (w WS) Command(t *Target) string {
 	// a command that ignores SIGTERM (cleanup handlers do that); only used by the interrupt check
 	b.WriteString("if [ -n \"${VERIF_TRAP_TERM:-}\" ]; then trap '' TERM; fi\n")
 	fmt.Fprintf(&b, "printf 'S %%s\\n' \"$GROG_TARGET\" >> \"$TRACE\"\n")
+	// who runs me: the parent of this shell is the grog process (used when several grog processes share a workspace)
+	fmt.Fprintf(&b, "if [ -n \"${TRACE_PID:-}\" ]; then printf 'S %%s %%s\\n' \"$PPID\" \"$GROG_TARGET\" >> \"$TRACE_PID\"; fi\n")
 	if t.Gate != "" {
 		fmt.Fprintf(&b, "i=0; while [ $i -lt 60 ] && ! grep -q -x -F %s \"$TRACE\"; do sleep 0.05; i=$((i+1)); done\n", shQuote("S "+t.Gate))
 	}
@@ -530,6 +532,7 @@ func (w WS) Command(t *Target) string {
 			fmt.Fprintf(&b, "if [ -f \"$EXT/wrongestablish.%s\" ]; then printf 'not-what-the-check-wants' > \"$EXT/marker.%s\"; elif [ ! -f \"$EXT/noestablish.%s\" ]; then printf '%%s' %s > \"$EXT/marker.%s\"; fi\n", c.Marker, c.Marker, c.Marker, shQuote(content), c.Marker)
 		}
 	}
+	fmt.Fprintf(&b, "if [ -n \"${TRACE_PID:-}\" ]; then printf 'E %%s %%s\\n' \"$PPID\" \"$GROG_TARGET\" >> \"$TRACE_PID\"; fi\n")
 	fmt.Fprintf(&b, "printf 'E %%s\\n' \"$GROG_TARGET\" >> \"$TRACE\"\n")
 	return b.String()
 }
